@@ -168,6 +168,12 @@ where
         self.segments.front().unwrap().absolute_offset
     }
 
+    /// Number of segments the log holds at the moment.
+    #[cfg(rumqtt_verif)]
+    pub fn verif_segment_count(&self) -> usize {
+        self.segments.len()
+    }
+
     #[inline]
     pub fn last(&self) -> Option<T> {
         self.active_segment().last()
